@@ -58,6 +58,12 @@ pub struct Txtpp {
     ///
     /// This is to track we don't unnecessarily process the same file twice in the first pass
     files: HashSet<AbsPath>,
+    /// Directories in the build system
+    ///
+    /// This is to track we don't scan the same directory twice, for example when it is specified
+    /// multiple times, or when a symbolic link points back into a directory being scanned
+    /// (which would otherwise be scanned recursively forever)
+    dirs: HashSet<AbsPath>,
 }
 
 impl Txtpp {
@@ -94,6 +100,7 @@ impl Txtpp {
             send,
             recv,
             files: HashSet::new(),
+            dirs: HashSet::new(),
         };
 
         let result = runtime.run_internal();
@@ -132,7 +139,6 @@ impl Txtpp {
             })?;
         let mut dep_mgr = DepManager::new();
         let mut file_count = 0;
-        let _ = self.progress.add_total(inputs.subdirs.len());
 
         // schedule input files
         for file in inputs.files {
@@ -175,7 +181,6 @@ impl Txtpp {
                         e.change_context(TxtppError)
                             .attach_printable("cannot scan directory")
                     })?;
-                    let _ = self.progress.add_total(directory.subdirs.len());
                     for file in directory.files {
                         self.execute_file(file, true)?;
                     }
@@ -252,6 +257,12 @@ impl Txtpp {
     }
 
     fn execute_directory(&mut self, dir: AbsPath, recursive: bool) {
+        // Like files, a directory can be reached more than once (duplicate inputs, symbolic links).
+        // Scan it only the first time.
+        if !self.dirs.insert(dir.clone()) {
+            return;
+        }
+        let _ = self.progress.add_total(1);
         let _ = self
             .progress
             .print_status(verbs::SCANNING, &dir.to_string(), Color::Yellow, true);
